@@ -220,8 +220,9 @@ def make_sets(scn):
     g = rng.np_stream(scn['table_seed'], 'pipe')
     out = []
     for j, n in enumerate(scn['sets']):
-        raw = g.integers(0, 1 << 16, (160, 16))
-        pt = g.integers(0, 256, (160, 4)).astype('uint8')
+        rows = max(160, n)
+        raw = g.integers(0, 1 << 16, (rows, 16))
+        pt = g.integers(0, 256, (rows, 4)).astype('uint8')
         s = raw[:n, :scn['m']] % (scn['amp'] + 1)
         td = np.dtype(scn['tdtype'])
         if td.kind != 'u':
@@ -388,6 +389,17 @@ def generate(prop, seed, tier):
         N = sum(scn['sets'])
         scn['step'] = _w(r, [(1, 1), (max(1, b - 1), 1), (b, 1.5), (b + 1, 1), (2 * b, 1), (r.randint(1, max(1, N)), 3), (N + 3, 0.7), (max(1, N), 0.7),
                              (r.choice([3, 7, 10, 25]), 2)])
+    if prop == 'C08' and rng.stream(seed, 'manycols').random() < 0.012:
+        # more than a thousand convergence points on one attack object (growth of whatever holds the columns)
+        mc = rng.stream(seed, 'manycols2')
+        scn.update({'kind': mc.choice(['cpa', 'dpa']), 'sets': [mc.randint(1030, 1300)], 'step': 1, 'rule': 2000, 'm': 2, 'chain': [], 'frame': None,
+                    'words': mc.choice([1, [0, 2]]), 'classes': None, 'amp': 7, 'precision': 'float64', 'nguess': 2})
+        scn['model'] = ['monobit', 0] if scn['kind'] == 'dpa' else 'hw'
+        scn.pop('const_word', None)
+        scn.pop('wide', None)
+    if prop in ('C02', 'C08') and len(scn['sets']) > 1 and rng.stream(seed, 'rule2').random() < 0.3:
+        # the process-global batch rule is changed between two run() calls
+        scn['rule2'] = rng.stream(seed, 'rule2b').choice([1, 3, 7, 1e-5, [[0, 2], [3, 5]]])
     if prop == 'C16':
         fr = rng.stream(seed, 'faults')
         scn['sets'] = scn['sets'][:1]
@@ -567,6 +579,8 @@ def _execute(scn, scared):
     clock = env.SimClock()
     with env.clock(clock), env.memory(env.SimMemory()):
         for j, (samples, pt) in enumerate(sets):
+            if j >= 1 and scn.get('rule2') is not None:
+                set_rule(scared, scn['rule2'])
             ths = make_ths(storage, samples, {'plaintext': pt}, 'set%d' % j)
             if not pps and scn['seed'] % 2 == 0:
                 # defaults left to the library (a mutable default shared between Container objects would show here)
@@ -921,21 +935,24 @@ def _check_convergence(scn, scared, att, rec, sf, EE, DD, cols_after_run, probes
     cands = [[b for b in bounds if b in sc_at and same(sc_at[b], ct[..., c])] for c in range(ncol)]
     last_of_run = set(c - 1 for c in cols_after_run if c > 0)
 
-    @functools.lru_cache(None)
-    def f(c, prev, prevreg):
-        if c == ncol:
-            return prev == total
-        for p in cands[c]:
-            if p <= prev:
-                continue
-            if c == ncol - 1 and p != total:
-                continue
-            if p - prevreg >= step and f(c + 1, p, p):
-                return True
-            if c in last_of_run and f(c + 1, p, prevreg):
-                return True
-        return False
-    if not f(0, 0, 0):
+    def feasible():
+        # forward reachability over (last point, last regular point): iterative, any number of columns
+        states = {(0, 0)}
+        for c in range(ncol):
+            nxt = set()
+            for prev, prevreg in states:
+                for p in cands[c]:
+                    if p <= prev or (c == ncol - 1 and p != total):
+                        continue
+                    if p - prevreg >= step:
+                        nxt.add((p, p))
+                    if c in last_of_run:
+                        nxt.add((p, prevreg))
+            states = nxt
+            if not states:
+                return False
+        return any(prev == total for prev, _ in states)
+    if not feasible():
         empty = [c for c in range(ncol) if not cands[c]]
         if empty:
             return viol('column_not_a_prefix_score', [prop, 'column_not_a_prefix_score', scn['kind']],
